@@ -294,7 +294,8 @@ def check_bounds(rng, nr):
         for solver in ('broyden_custom', 'newton_custom', 'hybr'):
             del evaluated[:]
             inside = lbs + nr.uniform(0.02, 0.98, size=n) * (ubs - lbs)
-            unknowns = {f'u{i}': (float(lbs[i]), float(inside[i]), float(ubs[i])) for i in range(n)}
+            names = rng.sample(['zeta', 'alpha', 'mu', 'beta', 'kappa', 'delta'], n)       # listing order is NOT alphabetical in general: bounds belong to names, the vector follows the listing
+            unknowns = {names[i]: (float(lbs[i]), float(inside[i]), float(ubs[i])) for i in range(n)}
             try:
                 sst.solve_for_unknowns(residual, unknowns, solver, {}, constrained_kwargs={})
             except (ValueError, RuntimeError, IndexError):
